@@ -12,7 +12,8 @@
 (*   - the decrement up to (if it was the last) the removal of the root,   *)
 (*   - the removal of the root.                                            *)
 (* Line kinds: gate cd env write probe childenv bg fail skip stop ro defer *)
-(* nopath condexec.  Only bg / defer / fail / skip / stop / gate matter    *)
+(* nopath condexec bgfail wait.  Only bg / defer / fail / wait / skip /    *)
+(* stop / gate matter                                                      *)
 (* for the shared state; the others act on the script's private state.     *)
 (***************************************************************************)
 EXTENDS Naturals, Sequences, FiniteSets, TLC
@@ -48,7 +49,10 @@ Seg(s, i, b, d) ==
     CASE l = "gate"  -> [ip |-> i + 1, bg |-> b, d |-> d, v |-> "running", gate |-> TRUE]
       [] l = "bg"    -> Seg(s, i + 1, b + 1, d)
       [] l = "defer" -> Seg(s, i + 1, b, Append(d, Len(d) + 1))
-      [] l = "fail"  -> [ip |-> i, bg |-> IF Bug = "NoBgCleanupOnFail" THEN b ELSE b, d |-> d, v |-> "fail", gate |-> FALSE]
+      [] l = "fail"  -> [ip |-> i, bg |-> b, d |-> d, v |-> "fail", gate |-> FALSE]
+      \* `wait` after a background command that already exited with an unaccepted status ("bgfail") fails at once,
+      \* before it would wait for the commands started later: those are still alive when the failure path begins
+      [] l = "wait"  -> [ip |-> i, bg |-> b, d |-> d, v |-> "fail", gate |-> FALSE]
       [] l = "skip"  -> [ip |-> i, bg |-> 0, d |-> d, v |-> "skip", gate |-> FALSE]
       [] l = "stop"  -> [ip |-> i, bg |-> 0, d |-> d, v |-> "pass", gate |-> FALSE]
       [] OTHER       -> Seg(s, i + 1, b, d)
